@@ -349,4 +349,13 @@ patch_if('B7', 'core/classes.py',
             (chars if m.group(1) is None else ranges).add(m.group(0))
         return (ranges, chars)''')
 
+# ---------------- B8: F17 Integer leading-zero guard at text start
+# F17 the leading-zero guard must also hold at the very start of the text
+patch_if('B8', 'meta/essentials.py',
+"""                            *[_cl.AnyButDigit() + '0' + (i - 2) * _cl.AnyDigit() for i in range(2, i+1)]
+                        )""",
+"""                            *[_cl.AnyButDigit() + '0' + (i - 2) * _cl.AnyDigit() for i in range(2, i+1)],
+                            *[_asr.MatchAtStart('0' + (i - 2) * _cl.AnyDigit()) for i in range(2, i+1)]
+                        )""")
+
 print('applied', sorted(which))
